@@ -4,7 +4,7 @@
    binary payload.  [scene_ok] is what a modeling.Mesh guarantees structurally (K components per vector,
    float32 / byte words, all attributes of one length, indices below it) — no bound on the number of
    models, vertices, attributes, repeated pointers, materials, instances or lights. *)
-From PF Require Import Base.Bytes Formats.Gltf Formats.GltfProofs Formats.GltfGlbProofs.
+From PF Require Import Base.Bytes Formats.Gltf Formats.GltfProofs Formats.GltfExtProofs Formats.GltfGlbProofs.
 Open Scope list_scope.
 Open Scope N_scope.
 
@@ -98,6 +98,13 @@ Theorem minmax_bounds : forall c k es j, (j < N.to_nat k)%nat ->
   end.
 Proof. exact minmax_of_sound. Qed.
 Print Assumptions minmax_bounds.
+
+(* extensions in use are declared: every extension key emitted on a node, a material, a texture
+   reference, a texture or at the root is listed in extensionsUsed, and extensionsRequired is a subset *)
+Theorem ext_declared : forall sc,
+  let s := to_summary (run sc) in incl (all_ext_keys s) (s_used s) /\ incl (s_req s) (s_used s).
+Proof. exact ext_declared_run. Qed.
+Print Assumptions ext_declared.
 
 (* GLB container: for every JSON text and every buffer, the header's length field is the actual file
    length 12 + 8 + pad4 json [+ 8 + pad4 bin]; both chunk lengths are multiples of 4, padding < 4 *)
